@@ -169,7 +169,8 @@ def run(case):
         return violated("ra[%s] = %s on rows of lengths %s raised %s: %s" % (short(idx), short(value), lens, type(out.exc).__name__, out.exc), tags, got=repr(out))
     if not lists_same(after, exp):
         changed = [(i, j) for i in range(len(exp)) if i < len(after) for j in range(min(len(exp[i]), len(after[i]))) if after[i][j] != pyrows[i][j]]
-        stray = [c for c in changed if c not in set(flatcells)]
+        addressed = set(flatcells)
+        stray = [c for c in changed if c not in addressed]
         return violated("ra[%s] = %s on rows of lengths %s: target is %s, expected %s%s" % (
             short(idx), short(value), lens, short(after, 240), short(exp, 240), ("; cells outside the addressed ones were written: %s" % stray[:6]) if stray else ""),
             tags + (["stray-write"] if stray else []), got=after, expected=exp)
